@@ -27,62 +27,99 @@ theorem mem_of_lookup {α β} [BEq α] [LawfulBEq α] : ∀ (l : List (α × β)
       subst this; subst h; simp
     · exact List.mem_cons_of_mem _ (ih a b h)
 
-theorem inv_fetch (cfg : Cfg) (s s' : St) (u : String) (r : Res) (hi : CacheInv cfg s)
-    (h : loadHTTP.fetch cfg s u = (s', r)) : CacheInv cfg s' ∧ s'.now = s.now := by
-  unfold loadHTTP.fetch at h
-  simp only at h
-  split at h
-  · simp at h; obtain ⟨h1, _⟩ := h; subst h1; exact ⟨⟨hi.cached, hi.past, hi.noEmbedded⟩, rfl⟩
-  · simp at h; obtain ⟨h1, _⟩ := h; subst h1; exact ⟨⟨hi.cached, hi.past, hi.noEmbedded⟩, rfl⟩
-  · rename_i v p _
-    split at h
-    · simp at h; obtain ⟨h1, _⟩ := h; subst h1
-      refine ⟨⟨?_, ?_, ?_⟩, rfl⟩
-      · intro u' v' exp hm
-        simp only [cacheSet] at hm
-        split at hm
+theorem store_inv (cfg : Cfg) (s : St) (u : String) (v : Nat) (p : Policy) (hi : CacheInv cfg s) :
+    CacheInv cfg (store cfg s u v p) := by
+  unfold store
+  split
+  · refine ⟨?_, ?_, ?_⟩
+    · intro u' v' exp hm
+      simp only [cacheSet] at hm
+      split at hm
+      · obtain ⟨t, l, a, b⟩ := hi.cached u' v' exp hm
+        exact ⟨t, l, List.mem_cons_of_mem _ a, b⟩
+      · simp only [List.mem_cons, Prod.mk.injEq, List.mem_filter] at hm
+        rcases hm with ⟨e1, e2, e3⟩ | ⟨hm, _⟩
+        · subst e1; subst e2; subst e3
+          exact ⟨s.now, p.lifetime, by simp, rfl⟩
         · obtain ⟨t, l, a, b⟩ := hi.cached u' v' exp hm
           exact ⟨t, l, List.mem_cons_of_mem _ a, b⟩
-        · simp only [List.mem_cons, Prod.mk.injEq, List.mem_filter] at hm
-          rcases hm with ⟨e1, e2, e3⟩ | ⟨hm, _⟩
-          · subst e1; subst e2; subst e3
-            exact ⟨s.now, p.lifetime, by simp, rfl⟩
-          · obtain ⟨t, l, a, b⟩ := hi.cached u' v' exp hm
-            exact ⟨t, l, List.mem_cons_of_mem _ a, b⟩
-      · intro u' v' t l hm
-        simp only [List.mem_cons, Prod.mk.injEq] at hm
-        rcases hm with ⟨_, _, e3, _⟩ | hm
-        · subst e3; exact Int.le_refl _
-        · exact hi.past u' v' t l hm
-      · intro u' x hm
-        simp only [cacheSet] at hm
-        split at hm
+    · intro u' v' t l hm
+      simp only [List.mem_cons, Prod.mk.injEq] at hm
+      rcases hm with ⟨_, _, e3, _⟩ | hm
+      · subst e3; exact Int.le_refl _
+      · exact hi.past u' v' t l hm
+    · intro u' x hm
+      simp only [cacheSet] at hm
+      split at hm
+      · exact hi.noEmbedded u' x hm
+      · rename_i hemb
+        simp only [List.mem_cons, Prod.mk.injEq, List.mem_filter] at hm
+        rcases hm with ⟨e1, _⟩ | ⟨hm, _⟩
+        · subst e1
+          cases hl : cfg.embedded.lookup u' with
+          | none => rfl
+          | some _ => simp [hl] at hemb
         · exact hi.noEmbedded u' x hm
-        · rename_i hemb
-          simp only [List.mem_cons, Prod.mk.injEq, List.mem_filter] at hm
-          rcases hm with ⟨e1, _⟩ | ⟨hm, _⟩
-          · subst e1
-            cases hl : cfg.embedded.lookup u' with
-            | none => rfl
-            | some _ => simp [hl] at hemb
-          · exact hi.noEmbedded u' x hm
-    · simp at h; obtain ⟨h1, _⟩ := h; subst h1; exact ⟨⟨hi.cached, hi.past, hi.noEmbedded⟩, rfl⟩
+  · exact hi
 
-theorem inv_loadHTTP (cfg : Cfg) (s s' : St) (u : String) (r : Res) (hi : CacheInv cfg s)
-    (h : loadHTTP cfg s u = (s', r)) : CacheInv cfg s' ∧ s'.now = s.now := by
-  unfold loadHTTP at h
-  simp only at h
-  split at h
-  · split at h
-    · simp at h; obtain ⟨h1, _⟩ := h; subst h1; exact ⟨hi, rfl⟩
-    · exact inv_fetch cfg s s' u r hi h
-  · exact inv_fetch cfg s s' u r hi h
+theorem store_frame (cfg : Cfg) (s : St) (u : String) (v : Nat) (p : Policy) :
+    (store cfg s u v p).now = s.now ∧ (store cfg s u v p).origin = s.origin ∧ (store cfg s u v p).requests = s.requests := by
+  unfold store; split <;> simp
+
+theorem bump_inv (cfg : Cfg) (s : St) (hi : CacheInv cfg s) : CacheInv cfg (bump s) :=
+  ⟨hi.cached, hi.past, hi.noEmbedded⟩
+
+/-- a load keeps the invariant and changes neither the clock nor the origin -/
+theorem inv_loadHTTP (cfg : Cfg) : ∀ (hops : Nat) (s s' : St) (u : String) (r : Res), CacheInv cfg s →
+    loadHTTP cfg hops s u = (s', r) → CacheInv cfg s' ∧ s'.now = s.now ∧ s'.origin = s.origin := by
+  intro hops
+  induction hops with
+  | zero =>
+    intro s s' u r hi h
+    unfold loadHTTP at h
+    split at h
+    · simp at h; obtain ⟨h1, _⟩ := h; subst h1; exact ⟨hi, rfl, rfl⟩
+    · simp only at h
+      split at h
+      · simp at h; obtain ⟨h1, _⟩ := h; subst h1; exact ⟨bump_inv cfg s hi, rfl, rfl⟩
+      · simp at h; obtain ⟨h1, _⟩ := h; subst h1; exact ⟨bump_inv cfg s hi, rfl, rfl⟩
+      · rename_i v p _
+        simp at h; obtain ⟨h1, _⟩ := h; subst h1
+        have f := store_frame cfg (bump s) u v p
+        exact ⟨store_inv cfg _ u v p (bump_inv cfg s hi), f.1, f.2.1⟩
+      · simp at h; obtain ⟨h1, _⟩ := h; subst h1; exact ⟨bump_inv cfg s hi, rfl, rfl⟩
+  | succ n ih =>
+    intro s s' u r hi h
+    unfold loadHTTP at h
+    split at h
+    · simp at h; obtain ⟨h1, _⟩ := h; subst h1; exact ⟨hi, rfl, rfl⟩
+    · simp only at h
+      split at h
+      · simp at h; obtain ⟨h1, _⟩ := h; subst h1; exact ⟨bump_inv cfg s hi, rfl, rfl⟩
+      · simp at h; obtain ⟨h1, _⟩ := h; subst h1; exact ⟨bump_inv cfg s hi, rfl, rfl⟩
+      · rename_i v p _
+        simp at h; obtain ⟨h1, _⟩ := h; subst h1
+        have f := store_frame cfg (bump s) u v p
+        exact ⟨store_inv cfg _ u v p (bump_inv cfg s hi), f.1, f.2.1⟩
+      · rename_i t p _
+        try simp only at h
+        split at h
+        · rename_i s2 v hin
+          simp at h; obtain ⟨h1, _⟩ := h; subst h1
+          obtain ⟨i2, n2, o2⟩ := ih (bump s) s2 t _ (bump_inv cfg s hi) hin
+          have f := store_frame cfg s2 u v p
+          exact ⟨store_inv cfg s2 u v p i2, by rw [f.1, n2]; rfl, by rw [f.2.1, o2]; rfl⟩
+        · rename_i s2 r2 _ hin
+          simp at h; obtain ⟨h1, _⟩ := h; subst h1
+          obtain ⟨i2, n2, o2⟩ := ih (bump s) s2 t r2 (bump_inv cfg s hi) hin
+          exact ⟨i2, n2, o2⟩
 
 /-- **the invariant is preserved by every operation** -/
 theorem inv_step (cfg : Cfg) (s s' : St) (op : Op) (r : Res) (hi : CacheInv cfg s) (h : step cfg s op = (s', r)) :
     CacheInv cfg s' := by
   cases op with
   | serve u v p => simp [step] at h; obtain ⟨h1, _⟩ := h; subst h1; exact ⟨hi.cached, hi.past, hi.noEmbedded⟩
+  | serveAlt u t p => simp [step] at h; obtain ⟨h1, _⟩ := h; subst h1; exact ⟨hi.cached, hi.past, hi.noEmbedded⟩
   | fail u => simp [step] at h; obtain ⟨h1, _⟩ := h; subst h1; exact ⟨hi.cached, hi.past, hi.noEmbedded⟩
   | tick n =>
     simp [step] at h; obtain ⟨h1, _⟩ := h; subst h1
@@ -90,7 +127,7 @@ theorem inv_step (cfg : Cfg) (s s' : St) (op : Op) (r : Res) (hi : CacheInv cfg 
   | load sc u g =>
     simp only [step, load] at h
     cases sc with
-    | http => exact (inv_loadHTTP cfg s s' u r hi h).1
+    | http => exact (inv_loadHTTP cfg _ s s' u r hi h).1
     | other => simp at h; obtain ⟨h1, _⟩ := h; subst h1; exact hi
     | ipfs =>
       simp only at h
@@ -98,7 +135,7 @@ theorem inv_step (cfg : Cfg) (s s' : St) (op : Op) (r : Res) (hi : CacheInv cfg 
       · simp only [loadIPFSNode] at h
         split at h <;> (simp at h; obtain ⟨h1, _⟩ := h; subst h1; exact ⟨hi.cached, hi.past, hi.noEmbedded⟩)
       · split at h
-        · exact (inv_loadHTTP cfg s s' g r hi h).1
+        · exact (inv_loadHTTP cfg _ s s' g r hi h).1
         · simp at h; obtain ⟨h1, _⟩ := h; subst h1; exact hi
 
 /-- … hence it holds in every reachable state, along any history -/
@@ -112,115 +149,270 @@ theorem inv_run (cfg : Cfg) : ∀ (ops : List Op) (s : St), CacheInv cfg s → C
     have := inv_step cfg s (step cfg s op).1 op (step cfg s op).2 hi rfl
     exact ih _ this
 
-/-- **Freshness**: a document returned for an http(s) URL is the one the origin serves now, or one received
-    earlier in a response that allowed caching and whose lifetime has not expired, or the embedded one -/
-theorem load_fresh (cfg : Cfg) (s s' : St) (u : String) (v : Nat) (hi : CacheInv cfg s)
-    (h : loadHTTP cfg s u = (s', .doc v)) :
-    (∃ p, s.origin.lookup u = some (.serves v p)) ∨
-    (∃ t l, (u, v, t, l) ∈ s.received ∧ t + l > s.now) ∨
-    cfg.embedded.lookup u = some v := by
-  have hfetch : ∀ s'', loadHTTP.fetch cfg s u = (s'', .doc v) → ∃ p, s.origin.lookup u = some (.serves v p) := by
-    intro s'' hf
-    unfold loadHTTP.fetch at hf
-    simp only at hf
-    split at hf
-    · simp at hf
-    · simp at hf
-    · rename_i v' p ho
-      split at hf <;> (simp at hf; obtain ⟨_, hv⟩ := hf; subst hv; exact ⟨p, ho⟩)
-  unfold loadHTTP at h
-  simp only at h
+/-- what a load of `u` may return in state `s`: the document the origin serves for it now — directly, or through
+    the alternate link of the page it serves —, one received earlier for `u` in a response that allowed caching and
+    whose lifetime has not expired, or the embedded one. (For a page with an alternate link "received for u" is
+    the document obtained from the link's target at that time, stored under the page's own policy: finding F9,
+    `alternate_page_reuses_target_document` below.) -/
+inductive Allowed (cfg : Cfg) (s : St) : String → Nat → Prop
+  | current (u : String) (v : Nat) (p : Policy) : s.origin.lookup u = some (.serves v p) → Allowed cfg s u v
+  | viaAlternate (u t : String) (p : Policy) (v : Nat) : s.origin.lookup u = some (.alt t p) → Allowed cfg s t v → Allowed cfg s u v
+  | cached (u : String) (v : Nat) (t l : Int) : (u, v, t, l) ∈ s.received → t + l > s.now → Allowed cfg s u v
+  | embedded (u : String) (v : Nat) : cfg.embedded.lookup u = some v → Allowed cfg s u v
+
+theorem allowed_congr (cfg : Cfg) (s s1 : St) (ho : s1.origin = s.origin) (hr : s1.received = s.received) (hn : s1.now = s.now)
+    (u : String) (v : Nat) (h : Allowed cfg s1 u v) : Allowed cfg s u v := by
+  induction h with
+  | current u v p h1 => exact .current u v p (by rw [← ho]; exact h1)
+  | viaAlternate u t p v h1 _ ih => exact .viaAlternate u t p v (by rw [← ho]; exact h1) ih
+  | cached u v t l h1 h2 => exact .cached u v t l (by rw [← hr]; exact h1) (by rw [← hn]; exact h2)
+  | embedded u v h1 => exact .embedded u v h1
+
+theorem cacheHit_allowed (cfg : Cfg) (s : St) (u : String) (v : Nat) (hi : CacheInv cfg s) (h : cacheHit cfg s u = some v) :
+    Allowed cfg s u v := by
+  unfold cacheHit at h
   split at h
   · rename_i v' exp hhit
     split at h
     · rename_i hfresh
-      simp at h; obtain ⟨_, hv⟩ := h; subst hv
+      simp at h; subst h
       split at hhit
       · unfold cacheGet at hhit
         cases hemb : cfg.embedded.lookup u with
         | some ve =>
           simp [hemb] at hhit
-          right; right; rw [hhit.1]
+          exact .embedded u v' (by rw [hemb, hhit.1])
         | none =>
           simp only [hemb] at hhit
           have hm := mem_of_lookup _ _ _ hhit
           obtain ⟨t, l, a, b⟩ := hi.cached u v' exp hm
-          right; left
-          exact ⟨t, l, a, by omega⟩
+          exact .cached u v' t l a (by omega)
       · simp at hhit
-    · exact Or.inl (hfetch s' h)
-  · exact Or.inl (hfetch s' h)
+    · simp at h
+  · simp at h
 
-/-- responses that forbid or do not permit caching are never reused, and failed responses are never cached:
-    only storable, successful responses enter the history the cache draws from -/
-theorem only_storable_received (cfg : Cfg) (s s' : St) (u : String) (r : Res) (x : String × Nat × Int × Int)
-    (h : loadHTTP cfg s u = (s', r)) (hx : x ∈ s'.received) (hnew : x ∉ s.received) :
-    ∃ p, s.origin.lookup u = some (.serves x.2.1 p) ∧ p.storable = true ∧ cfg.cacheOn = true ∧ x = (u, x.2.1, s.now, p.lifetime) := by
-  have hfetch : loadHTTP.fetch cfg s u = (s', r) →
-      ∃ p, s.origin.lookup u = some (.serves x.2.1 p) ∧ p.storable = true ∧ cfg.cacheOn = true ∧ x = (u, x.2.1, s.now, p.lifetime) := by
-    intro hf
-    unfold loadHTTP.fetch at hf
-    simp only at hf
-    split at hf
-    · simp at hf; obtain ⟨h1, _⟩ := hf; subst h1; exact absurd hx hnew
-    · simp at hf; obtain ⟨h1, _⟩ := hf; subst h1; exact absurd hx hnew
-    · rename_i v p ho
-      split at hf
-      · rename_i hc
-        simp at hf; obtain ⟨h1, _⟩ := hf; subst h1
-        simp only [List.mem_cons] at hx
-        rcases hx with e | hx
-        · subst e
-          simp at hc
-          exact ⟨p, ho, hc.1, hc.2, rfl⟩
-        · exact absurd hx hnew
-      · simp at hf; obtain ⟨h1, _⟩ := hf; subst h1; exact absurd hx hnew
-  unfold loadHTTP at h
-  simp only at h
-  split at h
-  · split at h
-    · simp at h; obtain ⟨h1, _⟩ := h; subst h1; exact absurd hx hnew
-    · exact hfetch h
-  · exact hfetch h
+/-- **Freshness**: a document returned for an http(s) URL is one `Allowed` describes -/
+theorem load_fresh (cfg : Cfg) : ∀ (hops : Nat) (s s' : St) (u : String) (v : Nat), CacheInv cfg s →
+    loadHTTP cfg hops s u = (s', .doc v) → Allowed cfg s u v := by
+  intro hops
+  induction hops with
+  | zero =>
+    intro s s' u v hi h
+    unfold loadHTTP at h
+    split at h
+    · rename_i v' hhit
+      simp at h; obtain ⟨_, hv⟩ := h; subst hv
+      exact cacheHit_allowed cfg s u v' hi hhit
+    · simp only at h
+      split at h
+      · simp at h
+      · simp at h
+      · rename_i v' p ho
+        simp at h; obtain ⟨_, hv⟩ := h; subst hv
+        exact .current u v' p ho
+      · simp at h
+  | succ n ih =>
+    intro s s' u v hi h
+    unfold loadHTTP at h
+    split at h
+    · rename_i v' hhit
+      simp at h; obtain ⟨_, hv⟩ := h; subst hv
+      exact cacheHit_allowed cfg s u v' hi hhit
+    · simp only at h
+      split at h
+      · simp at h
+      · simp at h
+      · rename_i v' p ho
+        simp at h; obtain ⟨_, hv⟩ := h; subst hv
+        exact .current u v' p ho
+      · rename_i t p ho
+        try simp only at h
+        split at h
+        · rename_i s2 v' hin
+          simp at h; obtain ⟨_, hv⟩ := h; subst hv
+          have := ih (bump s) s2 t v' (bump_inv cfg s hi) hin
+          exact .viaAlternate u t p v' ho (allowed_congr cfg s (bump s) rfl rfl rfl t v' this)
+        · simp at h
 
 /-- a failing origin never produces a document unless a fresh cached or embedded one exists -/
-theorem failure_not_returned (cfg : Cfg) (s s' : St) (u : String) (v : Nat) (hi : CacheInv cfg s)
+theorem failure_not_returned (cfg : Cfg) (hops : Nat) (s s' : St) (u : String) (v : Nat) (hi : CacheInv cfg s)
     (hfail : s.origin.lookup u = some .fails ∨ s.origin.lookup u = none)
-    (h : loadHTTP cfg s u = (s', .doc v)) :
+    (h : loadHTTP cfg hops s u = (s', .doc v)) :
     (∃ t l, (u, v, t, l) ∈ s.received ∧ t + l > s.now) ∨ cfg.embedded.lookup u = some v := by
-  rcases load_fresh cfg s s' u v hi h with ⟨p, hp⟩ | h2 | h3
-  · rcases hfail with hf | hf <;> (rw [hf] at hp; simp at hp)
-  · exact Or.inl h2
-  · exact Or.inr h3
+  have ha := load_fresh cfg hops s s' u v hi h
+  cases ha with
+  | current _ _ p hp => rcases hfail with hf | hf <;> (rw [hf] at hp; simp at hp)
+  | viaAlternate _ t p _ hp _ => rcases hfail with hf | hf <;> (rw [hf] at hp; simp at hp)
+  | cached _ _ t l h1 h2 => exact Or.inl ⟨t, l, h1, h2⟩
+  | embedded _ _ h1 => exact Or.inr h1
+
+/-- a load does not move the clock -/
+theorem loadHTTP_now (cfg : Cfg) : ∀ (hops : Nat) (a b : St) (w : String) (q : Res), loadHTTP cfg hops a w = (b, q) → b.now = a.now := by
+  intro hops
+  induction hops with
+  | zero =>
+    intro a b w q hh
+    unfold loadHTTP at hh
+    split at hh
+    · simp at hh; rw [← hh.1]
+    · simp only at hh
+      split at hh
+      · simp at hh; rw [← hh.1]; rfl
+      · simp at hh; rw [← hh.1]; rfl
+      · simp at hh; rw [← hh.1, (store_frame cfg _ _ _ _).1]; rfl
+      · simp at hh; rw [← hh.1]; rfl
+  | succ m ihm =>
+    intro a b w q hh
+    unfold loadHTTP at hh
+    split at hh
+    · simp at hh; rw [← hh.1]
+    · simp only at hh
+      split at hh
+      · simp at hh; rw [← hh.1]; rfl
+      · simp at hh; rw [← hh.1]; rfl
+      · simp at hh; rw [← hh.1, (store_frame cfg _ _ _ _).1]; rfl
+      · try simp only at hh
+        split at hh
+        · rename_i s3 v3 hin3
+          simp at hh; rw [← hh.1, (store_frame cfg _ _ _ _).1]
+          exact ihm (bump a) s3 _ _ hin3
+        · rename_i s3 r3 _ hin3
+          simp at hh; rw [← hh.1]
+          exact ihm (bump a) _ _ r3 hin3
+
+/-- responses that forbid or do not permit caching are never reused, and failed responses are never cached:
+    whatever a load adds to the history the cache draws from was obtained now, for a URL whose own response
+    (a document, or a page with an alternate link) was successful and storable, with that response's lifetime -/
+theorem only_storable_received (cfg : Cfg) : ∀ (hops : Nat) (s s' : St) (u : String) (r : Res) (x : String × Nat × Int × Int),
+    loadHTTP cfg hops s u = (s', r) → x ∈ s'.received → x ∉ s.received →
+    ∃ u' v' p, x = (u', v', s.now, p.lifetime) ∧ p.storable = true ∧ cfg.cacheOn = true ∧
+      (s.origin.lookup u' = some (.serves v' p) ∨ ∃ t, s.origin.lookup u' = some (.alt t p)) := by
+  have hstore : ∀ (s0 : St) (u0 : String) (v0 : Nat) (p0 : Policy) (x : String × Nat × Int × Int),
+      x ∈ (store cfg s0 u0 v0 p0).received → x ∉ s0.received →
+      x = (u0, v0, s0.now, p0.lifetime) ∧ p0.storable = true ∧ cfg.cacheOn = true := by
+    intro s0 u0 v0 p0 x hx hn
+    unfold store at hx
+    split at hx
+    · rename_i hc
+      simp only [List.mem_cons] at hx
+      rcases hx with e | hx
+      · simp at hc; exact ⟨e, hc.1, hc.2⟩
+      · exact absurd hx hn
+    · exact absurd hx hn
+  intro hops
+  induction hops with
+  | zero =>
+    intro s s' u r x h hx hnew
+    unfold loadHTTP at h
+    split at h
+    · simp at h; obtain ⟨h1, _⟩ := h; subst h1; exact absurd hx hnew
+    · simp only at h
+      split at h
+      · simp at h; obtain ⟨h1, _⟩ := h; subst h1; exact absurd hx hnew
+      · simp at h; obtain ⟨h1, _⟩ := h; subst h1; exact absurd hx hnew
+      · rename_i v p ho
+        simp at h; obtain ⟨h1, _⟩ := h; subst h1
+        obtain ⟨e, a, b⟩ := hstore (bump s) u v p x hx hnew
+        exact ⟨u, v, p, e, a, b, Or.inl ho⟩
+      · simp at h; obtain ⟨h1, _⟩ := h; subst h1; exact absurd hx hnew
+  | succ n ih =>
+    intro s s' u r x h hx hnew
+    unfold loadHTTP at h
+    split at h
+    · simp at h; obtain ⟨h1, _⟩ := h; subst h1; exact absurd hx hnew
+    · simp only at h
+      split at h
+      · simp at h; obtain ⟨h1, _⟩ := h; subst h1; exact absurd hx hnew
+      · simp at h; obtain ⟨h1, _⟩ := h; subst h1; exact absurd hx hnew
+      · rename_i v p ho
+        simp at h; obtain ⟨h1, _⟩ := h; subst h1
+        obtain ⟨e, a, b⟩ := hstore (bump s) u v p x hx hnew
+        exact ⟨u, v, p, e, a, b, Or.inl ho⟩
+      · rename_i t p ho
+        try simp only at h
+        split at h
+        · rename_i s2 v hin
+          simp at h; obtain ⟨h1, _⟩ := h; subst h1
+          by_cases hx2 : x ∈ s2.received
+          · exact ih (bump s) s2 t _ x hin hx2 hnew
+          · obtain ⟨e, a, b⟩ := hstore s2 u v p x hx hx2
+            have hn2 : s2.now = s.now := loadHTTP_now cfg n (bump s) s2 t _ hin
+            exact ⟨u, v, p, by rw [e, hn2], a, b, Or.inr ⟨t, ho⟩⟩
+        · rename_i s2 r2 _ hin
+          simp at h; obtain ⟨h1, _⟩ := h; subst h1
+          exact ih (bump s) s2 t r2 x hin hx hnew
 
 /-- embedded documents are returned without any request … -/
-theorem embedded_no_request (cfg : Cfg) (s : St) (u : String) (v : Nat) (hc : cfg.cacheOn = true)
-    (he : cfg.embedded.lookup u = some v) : loadHTTP cfg s u = (s, .doc v) := by
+theorem embedded_no_request (cfg : Cfg) (hops : Nat) (s : St) (u : String) (v : Nat) (hc : cfg.cacheOn = true)
+    (he : cfg.embedded.lookup u = some v) : loadHTTP cfg hops s u = (s, .doc v) := by
+  have hh : cacheHit cfg s u = some v := by
+    unfold cacheHit
+    simp only [hc, if_true, cacheGet, he]
+    have : s.now + 3600 > s.now := by omega
+    simp [this]
   unfold loadHTTP
-  simp only [hc, if_true, cacheGet, he]
-  have : s.now + 3600 > s.now := by omega
-  simp [this]
+  simp [hh]
 
 /-- … and never overwritten -/
 theorem embedded_never_overwritten (cfg : Cfg) (c : Cache) (u : String) (v : Nat) (exp : Int)
     (he : (cfg.embedded.lookup u).isSome = true) : cacheSet cfg c u v exp = c := by
   simp [cacheSet, he]
 
-/-- without a cache every load is a request -/
-theorem cache_disabled_always_requests (cfg : Cfg) (s : St) (u : String) (hc : cfg.cacheOn = false) :
-    (loadHTTP cfg s u).1.requests = s.requests + 1 ∧ (loadHTTP cfg s u).1.cache = s.cache := by
-  unfold loadHTTP
-  simp only [hc, Bool.false_eq_true, if_false]
-  unfold loadHTTP.fetch
-  simp only [hc, Bool.and_false, Bool.false_eq_true, if_false]
-  split <;> simp
+/-- without a cache every load is at least one request, and nothing is ever stored -/
+theorem cache_disabled_always_requests (cfg : Cfg) (hc : cfg.cacheOn = false) : ∀ (hops : Nat) (s : St) (u : String),
+    (loadHTTP cfg hops s u).1.requests ≥ s.requests + 1 ∧ (loadHTTP cfg hops s u).1.cache = s.cache := by
+  have hmiss : ∀ (s : St) (u : String), cacheHit cfg s u = none := by
+    intro s u; simp [cacheHit, hc]
+  have hst : ∀ (s : St) (u : String) (v : Nat) (p : Policy), store cfg s u v p = s := by
+    intro s u v p; simp [store, hc]
+  intro hops
+  induction hops with
+  | zero =>
+    intro s u
+    unfold loadHTTP
+    simp only [hmiss, hst]
+    split <;> simp
+  | succ n ih =>
+    intro s u
+    unfold loadHTTP
+    simp only [hmiss, hst]
+    split
+    · simp
+    · simp
+    · simp
+    · rename_i t p _
+      have := ih (bump s) t
+      try simp only
+      split
+      · rename_i s2 v hin
+        rw [hin] at this
+        simp at this ⊢
+        exact ⟨by omega, this.2⟩
+      · rename_i s2 r2 _ hin
+        rw [hin] at this
+        simp at this ⊢
+        exact ⟨by omega, this.2⟩
+
+/-- **finding F9, proved on the model**: a page whose response allows caching, with an alternate link to a document
+    whose own response forbids it: the document is stored under the page's URL and returned for it later,
+    without any request, although the origin has replaced it in the meantime -/
+theorem alternate_page_reuses_target_document :
+    (run ⟨true, [], false, false⟩ {} [.serveAlt "p" "d" ⟨true, 3600⟩, .serve "d" 1 ⟨false, 0⟩, .load .http "p" "",
+      .serve "d" 2 ⟨false, 0⟩, .load .http "p" "", .load .http "d" ""]).2 =
+      [.none_, .none_, .doc 1, .none_, .doc 1, .doc 2] := by decide +kernel
+
+/-- the hop bound: a page whose alternate link leads back to itself is an error after `maxHops` + 1 requests (defect D19:
+    before the repair the chain was followed without end) -/
+theorem alternate_loop_is_error :
+    (fun r => (r.1.requests, r.2)) (run ⟨true, [], false, false⟩ {} [.serveAlt "p" "p" ⟨true, 3600⟩, .load .http "p" ""]) =
+      (maxHops + 1, [.none_, .err]) := by decide +kernel
 
 /-- **Routing**: http(s) → the HTTP client; ipfs → the IPFS client when one is set, otherwise the gateway,
     otherwise an error; every other scheme is rejected -/
 theorem route_spec (cfg : Cfg) (s : St) (u g : String) :
-    load cfg s .http u g = loadHTTP cfg s u ∧
+    load cfg s .http u g = loadHTTP cfg maxHops s u ∧
     (cfg.ipfsClient = true → load cfg s .ipfs u g = loadIPFSNode s u) ∧
-    (cfg.ipfsClient = false → cfg.ipfsGateway = true → load cfg s .ipfs u g = loadHTTP cfg s g) ∧
+    (cfg.ipfsClient = false → cfg.ipfsGateway = true → load cfg s .ipfs u g = loadHTTP cfg maxHops s g) ∧
     (cfg.ipfsClient = false → cfg.ipfsGateway = false → load cfg s .ipfs u g = (s, .err)) ∧
     load cfg s .other u g = (s, .err) := by
   refine ⟨rfl, ?_, ?_, ?_, rfl⟩
